@@ -145,7 +145,9 @@ class Ctx:
         return self.mk_bool(self.mk_lincomb(x, self.g.operand(x, name, tie=tie)))
 
     def public_int(self, name):
-        return SymInt(z3.Int("k_" + name))
+        k = SymInt(z3.Int("k_" + name))
+        self.g.publics.append(k.t)
+        return k
 
 
 def And(*a):
@@ -185,6 +187,13 @@ class Contract:
     result_kind = None      # None | 'lincomb' | 'bool' | custom via result()
     covers_normal = True    # some path must return normally in every config
     witness_args = ()       # positions of arguments that are witness values (do not shape the circuit)
+    # which property each clause group of this contract counts for (pyvc/props.py)
+    cprops = ("C01",)
+    sprops = ("C02",)
+    eprops = ("C03",)
+    vprops = ("C05",)
+    tprops = ("C06",)
+    guard_relevant = True
     inline = False
 
     # ---- to be overridden ---------------------------------------------------
